@@ -33,7 +33,7 @@ LABEL_FAMILIES = {
 UNSUPPORTED = {
     "dir": {"remove_node_keep"},
     "temp": {"remove_edges"},
-    "mux": {"remove_edges", "remove_nodes", "clear", "set_node_md", "set_edge_md", "copy"},
+    "mux": {"remove_edges", "remove_nodes", "clear", "set_node_md", "set_edge_md", "copy", "set_inc_md"},
     "hg": set(),
 }
 
@@ -293,6 +293,15 @@ class Binding:
             obj.remove_attr_from_node_metadata(self.lab(op["n"]), op["f"])
         elif name == "del_attr_edge":
             obj.remove_attr_from_edge_metadata(*self.key_args(op["k"]), op["f"])
+        elif name == "set_inc_md":
+            k = op["k"]
+            if kind == "hg":
+                e = tuple(sorted(self.lab(i) for i in k["s"]))     # one listing order: the class keys by it
+                obj.set_incidence_metadata(e, self.lab(op["n"]), md_in(op["md"]))
+            elif kind == "dir":
+                obj.set_incidence_metadata(self.api_edge(k), self.lab(op["n"]), md_in(op["md"]))
+            else:
+                obj.set_incidence_metadata(self.api_edge(k), k["x"], self.lab(op["n"]), md_in(op["md"]))
         elif name == "clear":
             obj.clear()
         else:
@@ -534,6 +543,9 @@ class Binding:
             v = safe(obj.get_all_edges_metadata)
             if isinstance(v, dict):
                 q["all_edges_md_n"] = len(v)
+        imd = self.incidence_md(obj)
+        if imd is not None:
+            q["imd"] = imd
         if kind == "dir":
             v = safe(obj.get_sources)
             if v is not None:
@@ -588,6 +600,25 @@ class Binding:
         if cc and kind == "hg":
             q["cc"] = self.cc_queries(obj, nodes, N)
         return q
+
+    def incidence_md(self, obj):
+        """the (hyperedge, node) -> metadata table as the class reports it (None if the class has none)"""
+        if self.kind not in ("hg", "dir", "temp"):
+            return None
+        try:
+            with quiet():
+                v = obj.get_all_incidences_metadata()
+        except Exception:
+            return None
+        if not isinstance(v, dict):
+            return None
+        imd = []
+        for kn, m in v.items():
+            try:
+                imd.append([self.from_api(kn[0]), self.unlab(kn[1]), md_out(m)])
+            except Exception:
+                pass
+        return imd
 
     def cc_queries(self, obj, nodes, N):
         import hypergraphx.utils.cc as ccm
